@@ -1,0 +1,10 @@
+//go:build verif
+
+package utils
+
+import db "github.com/tendermint/tm-db"
+
+// NewStorageWithDBs builds a Storage over caller-supplied DB handles (simulated disks).
+func NewStorageWithDBs(home string, stateDB, eventDB, snapshotDB db.DB) *Storage {
+	return &Storage{eventDB: eventDB, stateDB: stateDB, snapshotDB: snapshotDB, minterHome: home, minterConfig: home + "/config/config.toml"}
+}
